@@ -65,12 +65,13 @@ func (s *SeqNumRange) SetEnd(v SeqNum) {
 func (s *SeqNumRange) Limit(n uint64) SeqNumRange {
 	limitedRange := NewSeqNumRange(s.Start(), s.End())
 
-	numElems := s.End() - s.Start() + 1
-	if numElems <= 0 {
+	if s.End() < s.Start() { // invalid (inverted) range - do nothing
 		return limitedRange
 	}
 
-	if uint64(numElems) > n {
+	// The number of elements is End-Start+1, which does not fit in a uint64 for the range [0 -> MaxUint64];
+	// compare the number of elements minus one instead.
+	if uint64(s.End()-s.Start()) >= n {
 		newEnd := limitedRange.Start() + SeqNum(n) - 1
 		if newEnd > limitedRange.End() { // overflow - do nothing
 			return limitedRange
